@@ -1,8 +1,8 @@
-(* deps: CredModel.vo RetryModel.vo CredHistory.vo *)
+(* deps: CredModel.vo RetryModel.vo CredHistory.vo V3Accept.vo *)
 (* Extraction of the credential pipeline model.  ExtrOcamlBasic directives only. *)
 Require Extraction.
 Require Import ExtrOcamlBasic.
-From MV Require Import Bytes Base64Model CredModel RetryModel CredHistory.
+From MV Require Import Bytes Base64Model CredModel RetryModel CredHistory V3Spec V3Accept.
 Extraction Language OCaml.
 Extraction "model.ml"
   b2n n2b msg0 msg_reset set_err enc_process enc_pre enc_core dec_process dec_rollback
@@ -10,4 +10,4 @@ Extraction "model.ml"
   dec_time dec_authorized cred_rkey r_mem armor pack_outer pack_inner
   cbc_encrypt cbc_decrypt pkcs_pad pkcs_unpad zip_compress zip_decompress_length
   dek_subkey mac_subkey mac_size cipher_key_size cipher_blk_size cipher_iv_size
-  munge_decode_under_faults dec_attempt r_purge.
+  munge_decode_under_faults dec_attempt r_purge v3_build.
